@@ -15,7 +15,8 @@ found in the directory (`marshalDynamic`).
   `MaxFilePath`, separator replacement, extension, `uniqueFileName` (first free candidate `base_<i>ext` among the names
   this dump has written).
 * a file name is usable iff it is not empty, `.` or `..`, and has no NUL byte and no path separator (Linux); an unusable
-  name makes the dump fail, as `WriteFileSafety` returns the error of `open`.  NAME_MAX is not modelled.
+  name makes the dump fail, as `WriteFileSafety` returns the error of `open`.  NAME_MAX is not modelled.  The operations
+  replace both bytes (`opsOK`), so every item name — NUL and separators included — gets a usable file name.
 Names are byte strings (Go strings; the truncation counts bytes).  Core Lean only.
 -/
 namespace MosnVerif.Model.ConfigDir
@@ -105,6 +106,15 @@ def marshalDynamic {α : Type} (ops : List NameOp) (enc : α → Json) (nameOf :
     let stale := (d.map (·.1)).filter (fun n => !written.contains n)
     some (d'.filter (fun f => !stale.contains f.1))
 
+/-- a sequence of dumps of the same items into the same directory (one clock per dump) -/
+def dumps {α : Type} (ops : List NameOp) (enc : α → Json) (nameOf : α → Bytes) (cs : List α) :
+    List (Nat → Bytes) → Dir → Option Dir
+  | [], d => some d
+  | k :: r, d =>
+    match marshalDynamic ops enc nameOf k d cs with
+    | none => none
+    | some d' => dumps ops enc nameOf cs r d'
+
 /-- lexicographic order of file names (`ioutil.ReadDir` sorts by name) -/
 def bytesLe : Bytes → Bytes → Bool
   | [], _ => true
@@ -137,28 +147,33 @@ def isExt (e : Bytes) : Bool :=
   | c :: t => c == 46 && !t.isEmpty && !t.contains 46 && !t.contains 47 && !t.contains 0
   | [] => false
 
-/-- after these operations the name has no path separator (`clean` = it has none before), given that names of the
-clock have none -/
-def noSep : Bool → List NameOp → Bool
+/-- after these operations the name has no byte `b` (`clean` = it has none before), given that the readings of the
+clock have none: a `replaceAll b n` with `b ∉ n` cleans, no later operation may bring `b` back -/
+def noByte (b : UInt8) : Bool → List NameOp → Bool
   | clean, [] => clean
-  | clean, .replaceAll o n :: r => noSep ((clean || o == 47) && !n.contains 47) r
-  | clean, .append s :: r => noSep (clean && !s.contains 47) r
-  | clean, _ :: r => noSep clean r
+  | clean, .replaceAll o n :: r => noByte b ((clean || o == b) && !n.contains b) r
+  | clean, .append s :: r => noByte b (clean && !s.contains b) r
+  | clean, _ :: r => noByte b clean r
 
-/-- the operations introduce no NUL byte -/
-def noNul : List NameOp → Bool
-  | [] => true
-  | .replaceAll _ n :: r => !n.contains 0 && noNul r
-  | .append s :: r => !s.contains 0 && noNul r
-  | _ :: r => noNul r
+/-- no path separator is left -/
+abbrev noSep (clean : Bool) (ops : List NameOp) : Bool := noByte 47 clean ops
+
+/-- no NUL byte is left -/
+abbrev noNul (clean : Bool) (ops : List NameOp) : Bool := noByte 0 clean ops
 
 /-- the operations end with `+ ext` followed by `uniqueFileName`, where `ext` is the extension the loader reads; every
-separator is replaced before; no operation introduces NUL; the separator of `uniqueFileName` is harmless -/
+separator and every NUL byte (the two bytes a Linux file name cannot contain) is replaced before, whatever the name
+holds; the separator of `uniqueFileName` is harmless -/
 def opsOK (ops : List NameOp) (readExt : Bytes) : Bool :=
   match ops.reverse with
   | .unique :: .append e :: pre =>
-    e == readExt && isExt e && noSep false pre.reverse && noNul pre.reverse &&
+    e == readExt && isExt e && noSep false pre.reverse && noNul false pre.reverse &&
       !Gen.ConfigDir.uniqueSep.contains 47 && !Gen.ConfigDir.uniqueSep.contains 0
   | _ => false
+
+/-- the clock is consulted at most by the first operation (the default for an empty name) -/
+def stampFirst : List NameOp → Bool
+  | .orStamp :: r => r.all (· != .orStamp)
+  | r => r.all (· != .orStamp)
 
 end MosnVerif.Model.ConfigDir
